@@ -2,7 +2,12 @@
 // Distributed under the MIT License
 // (See accompanying LICENSE file or a copy at http://opensource.org/licenses/MIT)
 
+#[cfg(not(kani))]
 use std::{collections::BTreeMap, fmt::Debug, ops::Deref};
+#[cfg(kani)]
+use std::{fmt::Debug, ops::Deref};
+#[cfg(kani)]
+use crate::kani_models::BTreeMap;
 
 use super::aabb::AABB;
 use super::ray::Ray;
